@@ -97,7 +97,7 @@ var errDiscExceptions = map[string]string{
 	// try-each loops: a failing candidate is skipped, the count decides (C05.* rules own the logic)
 	"(*internal/policy.SignatureVerifier).Verify|internal/signerverifier/gitobject.Verify":                                                     "try-each key: failure = this key did not sign (C05.git-once, C05.success-iff)",
 	"(*internal/policy.SignatureVerifier).Verify|internal/signerverifier/dsse.VerifyEnvelope":                                                  "try-each principal: failure = not credited (C05.dedup, C05.success-iff)",
-	"internal/policy.verifyGitObjectAndAttestations|(*internal/policy.SignatureVerifier).Verify":                                               "global-rule counting: failure = zero credited principals (C11.all-rules-checked)",
+	"internal/policy.verifyGitObjectAndAttestations|(*internal/policy.SignatureVerifier).Verify":                                               "try-each verifier for the tag object: ErrVerifierConditionsUnmet moves on, anything else is returned, exhaustion is an error (C01.tag-object)",
 	"internal/policy.verifyGitObjectAndAttestationsUsingVerifiers|(*internal/policy.SignatureVerifier).Verify":                                 "try-each verifier: first success wins, exhaustion is an error (C05.consumer)",
 	"(*internal/third_party/go-securesystemslib/dsse.EnvelopeVerifier).Verify|(internal/third_party/go-securesystemslib/dsse.Verifier).KeyID":  "try-each verifier (C05.pae)",
 	"(*internal/third_party/go-securesystemslib/dsse.EnvelopeVerifier).Verify|internal/third_party/go-securesystemslib/dsse.SHA256KeyID":       "try-each verifier (C05.pae)",
